@@ -141,6 +141,16 @@ def run_case(case):
                 if bad:
                     acc.fail('jackknife:import', sub, 'n=%d %s %s: %s' % (n, ik, d, bad))
                     continue
+                # the configuration list handed to the import stays the caller's: changing it afterwards does not touch the observable
+                mine = list(cfgs)
+                back3 = pe.import_jackknife(j, 'A|r1', idl=[mine])
+                mine.append(cfgs[-1] + 1000)
+                mine[0] = cfgs[0] - 1 if cfgs[0] > 1 else mine[0]
+                mine.extend([cfgs[-1] + 2000, cfgs[-1] + 3000])
+                if list(back3.idl['A|r1']) != cfgs or back3.N != n or back3.shape['A|r1'] != n or len(back3.deltas['A|r1']) != n:
+                    acc.fail('jackknife:import-idl-aliased', sub, 'n=%d %s %s: after the caller changed the list it had passed as idl, the imported observable lives on %d configurations (N=%d, %d fluctuations)' % (
+                        n, ik, d, len(back3.idl['A|r1']), back3.N, len(back3.deltas['A|r1'])))
+                    continue
                 # without idl the default list 1..n is used
                 back2 = pe.import_jackknife(j, 'A|r1')
                 if list(back2.idl['A|r1']) != list(range(1, n + 1)):
